@@ -639,6 +639,8 @@ def search(ctx, broken):
         mu = rng.choice([0.0, float(rng.randint(-8, 8)) * s])
         A = sgn(rng) * kcorr.loguniform(rng, 1e-3, 1e3)
         f = rng.choice([0.0, 1.0, 0.25, rng.random()])
+        if trial // 3 < 2:
+            f = float(trial // 3)        # both ends of the fraction range, whatever the seed
         p = rng.choice(PREFIXES)
         m = {'kind': kind, 'prefix': p, 'ctor': p, 'chain': []}
         params = {p + 'amplitude': var([A], [[uy, 1], [ux, 1]]), p + 'loc': var([mu], [[ux, 1]]),
